@@ -631,7 +631,13 @@ impl IgnoreBuilder {
         let git_global_matcher = if !self.opts.git_global {
             Gitignore::empty()
         } else {
-            let mut builder = GitignoreBuilder::new("");
+            // Like the globs of an explicitly given ignore file, the globs
+            // of the global gitignore file are matched relative to the
+            // current directory. Make that explicit, so that they also
+            // apply to absolute paths below it (a relative path is matched
+            // as is either way).
+            let cwd = std::env::current_dir().unwrap_or_default();
+            let mut builder = GitignoreBuilder::new(cwd);
             builder
                 .case_insensitive(self.opts.ignore_case_insensitive)
                 .unwrap();
